@@ -49,7 +49,8 @@ class Scope:
 
 
 class Gen:
-    def __init__(self, rng, trim=False, lstrip=False, errors=0.012, wsctl=0.15):
+    def __init__(self, rng, trim=False, lstrip=False, errors=0.012, wsctl=0.15, line_prefixes=False):
+        self.line_prefixes = line_prefixes    # environment has line_statement_prefix '%%' and line_comment_prefix '##'
         self.r = rng
         self.trim, self.lstrip = trim, lstrip
         self.errors = errors
@@ -292,7 +293,25 @@ class Gen:
     def body(self, sc, depth, n=None):
         r = self.r
         n = r.randint(1, 4) if n is None else n
-        return "".join(self.stmt(sc, depth) for _ in range(n))
+        b = "".join(self.stmt(sc, depth) for _ in range(n))
+        # runs of blank lines at the start / end of a block body
+        if r.random() < 0.12:
+            self.features.add("blank-lines-at-block-start")
+            b = "\n" * r.randint(1, 3) + b
+        if r.random() < 0.12:
+            self.features.add("blank-lines-at-block-end")
+            b = b + r.choice(["\n", "\n", " \n", "\n\t"]) * r.randint(1, 3)
+        return b
+
+    def ending(self):
+        """0..3 final line breaks of one style (or mixed)"""
+        r = self.r
+        k = r.choice([0, 0, 1, 1, 2, 3])
+        if k:
+            self.features.add(f"ends-in-{k}-line-breaks")
+        if r.random() < 0.15:
+            return "".join(r.choice(["\n", "\r\n", "\r"]) for _ in range(k))
+        return r.choice(["\n", "\n", "\r\n", "\r"]) * k
 
     def line_tag(self, s):
         """under lstrip_blocks / trim_blocks put block tags on their own line (the common, version-independent use)"""
@@ -302,6 +321,13 @@ class Gen:
         r = self.r
         k = r.randint(0, 29) if depth > 0 else r.randint(0, 7)
         f = self.features.add
+        if self.line_prefixes and r.random() < 0.12:
+            f("line-statement")
+            j = r.randint(0, 3)
+            if j == 0: return "\n%% if " + self.e_bool(sc, 1) + "\n" + self.text(6) + "\n%% endif\n"
+            if j == 1: return "\n  %% for lv in range(2)\n" + self.text(4) + "{{ lv }}\n%% endfor\n"
+            if j == 2: return "\n## a line comment " + self.text(4).replace("\n", " ") + "\n"
+            return self.text(4).replace("\n", " ") + " ## trailing comment\n"
         if k <= 2:
             return self.text()
         if k <= 6:
@@ -475,9 +501,9 @@ class Gen:
             tpl[main_name] = child
         else:
             tpl[main_name] = self.body(sc, 3, r.randint(2, 6))
-        if self.lstrip or self.trim:
-            # version-independent use only: every block tag alone on its line
-            tpl = {k: v for k, v in tpl.items()}
+        # every template and every included / imported / extended partial ends in 0..3 line breaks of some style
+        for name in list(tpl):
+            tpl[name] = tpl[name] + self.ending()
         return tpl, main_name, ctx
 
 
